@@ -35,3 +35,14 @@ End C15_deque.
 Print Assumptions C15_deque_unchanged.
 Print Assumptions C15_deque_snapshot_or_panic.
 Print Assumptions C15_deque_add_remove_panics.
+
+From Juniper Require Import Generated.Params.
+
+Theorem C15_deque_params_ok : 1 <= deque_minSize /\ 2 <= deque_growMul.
+Proof. unfold deque_minSize, deque_growMul; split; lia. Qed.
+
+Theorem C15_deque_snapshot_or_panic_shipped : forall ops : list (op Z),
+    Forall ghost_ok (snd (grun 0 deque_minSize deque_growMul st0 [] ops)).
+Proof. exact (C15_deque_snapshot_or_panic 0 deque_minSize deque_growMul (proj1 C15_deque_params_ok) (proj2 C15_deque_params_ok)). Qed.
+
+Print Assumptions C15_deque_snapshot_or_panic_shipped.
